@@ -215,6 +215,10 @@ static void evalLine(const std::string& line) {
         std::cout << "X bad-input\n";
         return;
     }
+    if (!survivesFen(P)) {           // P must be a position the FEN reader accepts unchanged (castle flags, e.p. square, kings)
+        std::cout << "X invalid-P\n";
+        return;
+    }
     MoveList lg;
     legalMoves(P, lg);
     if (!containsMove(lg, m)) {
